@@ -173,7 +173,7 @@ class Engine(ExprMixin, CallMixin, StmtMixin):
                 if n.name in ("set_mode", "isint", "implies"):
                     continue
                 self.spec_funcs[n.name] = SpecFn(n.name, n)
-        for k in ("DIM", "DIML", "SUM", "SUML", "A_MON", "MAXDIM", "MODE"):
+        for k in ("DIM", "DIML", "SUM", "SUML", "A_MON", "MAXDIM", "MAXW", "MODE"):
             self.spec_consts[k] = getattr(cal, k)
 
     def add_spec_source(self, path):
